@@ -304,7 +304,7 @@ BUNDLES = [None, obj(require_mode="path"), obj(require_mode="luau"), obj(require
            obj(require_mode=obj(name="path", module_folder_name="init/")),
            obj(require_mode=obj(name="path", module_folder_name="init.")),
            obj(require_mode="path", modules_identifier="__darklua_bundle_modules"),
-           obj(require_mode="path", modules_identifier="__DARKLUA_BUNDLE_MODULES "),
+           obj(require_mode="path", modules_identifier="__DARKLUA_BUNDLE_MODULES_"),
            obj(require_mode="path", modules_identifier="__MODS"),
            obj(require_mode="path", modules_identifier=None),
            obj(require_mode="path", modules_identifier="__DARKLUA_BUNDLE_MODULES"),
